@@ -60,6 +60,7 @@ class Insert:
         self.anchor = anchor
         self.text = []
         self.line = line
+        self.props = None
 
 
 class FnSpec:
@@ -273,10 +274,11 @@ def parse(path, include_dir):
             elif d == '@ensures_loop':
                 cur_list = cur_loop.ensures
             elif d == '@insert':
-                m = re.match(r'^(before|after|start|end)(?:\s+(\d+)\s+' + BT + ')?$', rest)
+                m = re.match(r'^(before|after|start|end)(?:\s+(\d+)\s+' + BT + r')?(?:\s*\|\s*([A-Z0-9 ]+))?$', rest)
                 if not m:
                     raise SpecError('%s:%d bad @insert' % (path, i))
                 cur_insert = Insert(m.group(1), int(m.group(2) or 1), m.group(3), i)
+                cur_insert.props = m.group(4).split() if m.group(4) else None
                 cur_fn.inserts.append(cur_insert)
                 cur_list = None
             else:
